@@ -1,1 +1,2 @@
 pub mod inflight;
+pub mod window;
